@@ -455,7 +455,7 @@ static rc::Gen<Case> gen_flt(int) {
     std::string s = *gen_ws();
     int sg = *rc::gen::weightedElement<int>({{5, 0}, {2, 1}, {4, 2}});
     s += sg == 1 ? "+" : sg == 2 ? "-" : "";
-    int kind = *rc::gen::weightedElement<int>({{6, 0}, {3, 1}, {4, 2}, {2, 3}, {1, 4}, {2, 5}});
+    int kind = *rc::gen::weightedElement<int>({{6, 0}, {3, 1}, {4, 2}, {2, 3}, {1, 4}, {2, 5}, {3, 6}});
     double val = 0;  // approximate value, used to place bounds
     char buf[128];
     if (kind == 0 || kind == 1) {  // exactly representable dyadic
@@ -486,6 +486,48 @@ static rc::Gen<Case> gen_flt(int) {
       }
       s += d;
       val = strtod(d.c_str(), nullptr);
+    } else if (kind == 6) {
+      // a numeral on, just above or just below the midpoint of two adjacent values of the target type: (2m+1) * 2^(e-1) with m a full-width
+      // significand, written out exactly and then disturbed far beyond the 64th significant bit (a parser that rounds twice -- through a
+      // wider intermediate type -- gets exactly these wrong)
+      int mb = type == 0 ? 24 : 53;
+      uint64_t m = ((uint64_t)1 << (mb - 1)) | *range<uint64_t>(0, ((uint64_t)1 << (mb - 1)) - 1);
+      int e = *range<int>(-30, 30);
+      int where = *range<int>(0, 2);  // 0 on the midpoint, 1 just above, 2 just below
+      val = std::ldexp((double)m, e);
+      if (*range<int>(0, 3)) {
+        mpz_t z, f;
+        mpz_init_set_ui(z, (unsigned long)(2 * m + 1));
+        mpz_init(f);
+        int fracdigits = 0;
+        if (e - 1 >= 0)
+          mpz_mul_2exp(z, z, (mp_bitcnt_t)(e - 1));
+        else {
+          fracdigits = 1 - e;
+          mpz_ui_pow_ui(f, 5, (unsigned long)fracdigits);
+          mpz_mul(z, z, f);
+        }
+        if (where == 2) mpz_sub_ui(z, z, 1);  // the last written digit goes down by one ...
+        char *zs = mpz_get_str(nullptr, 10, z);
+        std::string d = zs;
+        free(zs);
+        mpz_clear(z), mpz_clear(f);
+        if ((int)d.size() <= fracdigits) d = std::string((size_t)fracdigits - d.size() + 1, '0') + d;
+        if (fracdigits) d.insert(d.size() - (size_t)fracdigits, ".");
+        else d += ".";
+        int pad = *range<int>(0, 12);
+        if (where == 1) d += std::string((size_t)pad + 8, '0') + "1";
+        if (where == 2) d += std::string((size_t)pad + 8, '9');  // ... and nines follow
+        s += d;
+      } else {
+        char hb[64];
+        snprintf(hb, sizeof hb, "0x%llx", (unsigned long long)(where == 2 ? 2 * m : 2 * m + 1));
+        std::string d = hb;
+        if (where == 1) d += "." + std::string((size_t)*range<int>(4, 12), '0') + "1";
+        if (where == 2) d += "." + std::string((size_t)*range<int>(6, 14), 'f');
+        d += "p" + std::to_string(e - 1);
+        s += d;
+      }
     } else if (kind == 3) {
       s += *rc::gen::elementOf(std::vector<std::string>{"inf", "INF", "InFiNitY", "infinity", "Inf", "infinit", "infinityx"});
       val = INFINITY;
@@ -538,7 +580,8 @@ static Outcome run_flt(const Case &c) {
   FltParse r;
   ref_flt(s, r);
   int exp_err = 0;
-  double want = 0;
+  double want = 0, want_alt = 0;
+  bool have_alt = false;
   bool check_value = false;
   if (r.kind == 0 || (!trailing && r.end != s.size()))
     exp_err = EINVAL;
@@ -590,6 +633,14 @@ static Outcome run_flt(const Case &c) {
     mpq_clear(b);
     exp_err = (ge && le) ? 0 : ERANGE;
     want = type == 0 ? (double)(float)d : d;
+    if (type == 0) {
+      // a float target: the interface goes through strtod (nearest double, then nearest float); the nearest float of the numeral itself is
+      // the other defensible reading of "that value" -- both are accepted (they differ only for numerals within 2^-29 ulp of a float midpoint)
+      float f = 0;
+      auto fr2 = std::from_chars(r.canon.data(), r.canon.data() + r.canon.size(), f, r.hexf ? std::chars_format::hex : std::chars_format::general);
+      want_alt = fr2.ec == std::errc() ? (double)(r.neg ? -f : f) : want;
+      have_alt = true;
+    }
     check_value = true;
     // the code compares the *rounded* double with the bounds; when the exact value
     // and its rounding fall on different sides of a bound the property sentence
@@ -620,7 +671,7 @@ static Outcome run_flt(const Case &c) {
   else if (exp_err == 0 && check_value) {
     if (std::isnan(want)) {
       if (!std::isnan(out)) o.fail("flt-value", buf);
-    } else if (dbits(out) != dbits(want))
+    } else if (dbits(out) != dbits(want) && !(have_alt && dbits(out) == dbits(want_alt)))
       o.fail("flt-value", buf);
   }
   return o;
